@@ -174,12 +174,13 @@ Proof.
   unfold StyleOK; cbn [st_ticks st_chars st_cw st_parts].
   repeat split; try (vm_compute; discriminate).
   - repeat constructor.
+  - repeat constructor.
   - exact Hp.
 Qed.
 
 Lemma construct_ok c st : construct c = BOk st -> StyleOK st.
 Proof.
-  destruct c as [| |s]; cbn [construct].
+  destruct c as [| |s]; cbn [construct]; rewrite parse_full_total.
   - destruct (parse DEFAULT_BAR_TEMPLATE) as [ps|] eqn:E; [|discriminate].
     apply new_style_ok. exact (parse_parts_ok _ _ E).
   - destruct (parse DEFAULT_SPINNER_TEMPLATE) as [ps|] eqn:E; [|discriminate].
@@ -195,15 +196,29 @@ Proof.
   destruct c as [| |t]; cbn [construct].
   - vm_compute. discriminate.
   - vm_compute. discriminate.
-  - destruct (parse t); [|discriminate]. unfold new_style. rewrite default_width. discriminate.
+  - rewrite parse_full_total. destruct (parse t); [|discriminate]. unfold new_style. rewrite default_width. discriminate.
 Qed.
 
 Lemma nlen_map {A B} (f : A -> B) l : nlen (map f l) = nlen l.
 Proof. unfold nlen. rewrite map_length. reflexivity. Qed.
 
+Lemma existsb_tab_false cl :
+  existsb (fun c => has_tab (cl_text c)) cl = false -> Forall (fun c => has_tab (cl_text c) = false) cl.
+Proof.
+  induction cl as [|c r IH]; cbn [existsb]; intros H; [constructor|].
+  apply orb_false_elim in H. destruct H as [H1 H2]. constructor; [exact H1 | exact (IH H2)].
+Qed.
+
+Lemma has_tab_In s : has_tab s = true <-> In 9 s.
+Proof.
+  unfold has_tab. rewrite existsb_exists. split.
+  - intros [x [Hx E]]. apply N.eqb_eq in E. subst x. exact Hx.
+  - intros H. exists 9. split; [exact H | reflexivity].
+Qed.
+
 Lemma bstep_ok st o st' : StyleOK st -> bstep st o = BOk st' -> StyleOK st'.
 Proof.
-  intros (Ht & Hc & Hw & Hf & Hp) H. destruct o as [s|l|cl|s|k|w]; cbn [bstep] in H.
+  intros (Ht & Hc & Hw & Hf & Hnt & Hp) H. destruct o as [s|l|cl|s|k|w]; cbn [bstep] in H.
   - destruct (N.ltb_spec (nlen (map (fun c => [c]) s)) 2) as [|Hl]; [discriminate|].
     inversion H; subst. repeat split; assumption.
   - destruct (N.ltb_spec (nlen l) 2) as [|Hl]; [discriminate|].
@@ -211,10 +226,11 @@ Proof.
   - destruct (N.ltb_spec (nlen cl) 2) as [|Hl]; [discriminate|].
     destruct (width_of cl) as [w|] eqn:E; [|discriminate].
     destruct (N.eqb_spec w 0) as [|Hw0]; [discriminate|].
+    destruct (existsb (fun c => has_tab (cl_text c)) cl) eqn:Et; [discriminate|].
     inversion H; subst. apply width_of_ok in E. destruct E as [_ E].
     unfold StyleOK; cbn [st_ticks st_chars st_cw st_parts].
-    repeat split; try assumption. lia.
-  - destruct (parse s) as [ps|] eqn:E; [|discriminate].
+    repeat split; try assumption; [lia | exact (existsb_tab_false _ Et)].
+  - rewrite parse_full_total in H. destruct (parse s) as [ps|] eqn:E; [|discriminate].
     inversion H; subst. unfold StyleOK; cbn [st_ticks st_chars st_cw st_parts].
     repeat split; try assumption. exact (parse_parts_ok _ _ E).
   - inversion H; subst. repeat split; assumption.
@@ -299,6 +315,14 @@ Proof.
   rewrite andb_false_r. reflexivity.
 Qed.
 
+(* a value made by `new` never trips the debug_assert of `expanded`, and reaches the `repeat`
+   exactly when its text has a tab *)
+Lemma expanded_new_spec st b : expanded_new st b = tab_site st b.
+Proof. unfold expanded_new, tes_new, expanded_site, tab_site. destruct b; reflexivity. Qed.
+
+Lemma expanded_new_ok st b : tab_sane st -> expanded_new st b = Ok tt.
+Proof. intros H. rewrite expanded_new_spec. apply tab_site_ok; exact H. Qed.
+
 Lemma pad_tail (buf : mtext) (p : ph) (nw : option wide) :
   mt_ok buf ->
   oseq (match ph_width p with
@@ -322,13 +346,14 @@ Proof.
   destruct (key_is (ph_key p) KeyNames.bar).
   { rewrite format_bar_ok by exact Hs. cbn [oseq]. eexists. apply pad_tail. exact Hi. }
   destruct (key_is (ph_key p) KeyNames.spinner).
-  { destruct (current_tick_str_ok st sn Hs) as [s Es]. rewrite Es. eexists. apply pad_tail. exact Hi. }
+  { destruct (current_tick_str_ok st sn Hs) as [s Es]. rewrite Es.
+    rewrite tab_site_ok by exact Htab. cbn [oseq]. eexists. apply pad_tail. exact Hi. }
   destruct (key_is (ph_key p) KeyNames.wide_msg).
   { eexists. apply pad_tail. exact Hi. }
   destruct (key_is (ph_key p) KeyNames.msg).
-  { rewrite tab_site_ok by exact Htab. cbn [oseq]. eexists. apply pad_tail. exact Hm. }
+  { rewrite expanded_new_ok by exact Htab. cbn [oseq]. eexists. apply pad_tail. exact Hm. }
   destruct (key_is (ph_key p) KeyNames.prefix).
-  { rewrite tab_site_ok by exact Htab. cbn [oseq]. eexists. apply pad_tail. exact Hpre. }
+  { rewrite expanded_new_ok by exact Htab. cbn [oseq]. eexists. apply pad_tail. exact Hpre. }
   destruct (key_is (ph_key p) KeyNames.per_sec).
   { cbn [part_ok] in Hp. destruct (ph_width p) as [w|] eqn:Ew.
     - destruct (N.leb_spec U16 w); [lia|]. eexists.
@@ -342,7 +367,7 @@ Lemma push_line_sites_ok st sn O i wd tw :
 Proof.
   intros Hs Htab [Hm _]. unfold push_line_sites. destruct wd as [[|a]|]; [| |reflexivity].
   - apply format_bar_ok; exact Hs.
-  - rewrite tab_site_ok by exact Htab. cbn [oseq]. apply padded_sites_ok; exact Hm.
+  - rewrite expanded_new_ok by exact Htab. cbn [oseq]. apply padded_sites_ok; exact Hm.
 Qed.
 
 Lemma walk_ok st sn O tw ps : forall i wd,
@@ -352,7 +377,7 @@ Proof.
   induction ps as [|p r IH]; intros i wd Hs Htab Hn HO Hp; cbn [walk].
   - eexists; reflexivity.
   - inversion Hp as [|? ? Hp1 Hpr]; subst. destruct p as [s|q|].
-    + rewrite tab_site_ok by exact Htab. cbn [oseq]. apply IH; assumption.
+    + rewrite expanded_new_ok by exact Htab. cbn [oseq]. apply IH; assumption.
     + destruct (placeholder_sites_ok st sn O i q Hs Htab Hn HO Hp1) as [nw E]. rewrite E.
       apply IH; assumption.
     + rewrite push_line_sites_ok by assumption. cbn [oseq]. apply IH; assumption.
@@ -363,7 +388,7 @@ Theorem render_ok st sn tw O :
   StyleOK st -> tab_sane st -> snap_ok sn -> oracles_ok O -> render_outcome st sn tw O = Ok tt.
 Proof.
   intros Hs Htab Hn HO. unfold render_outcome.
-  destruct Hs as (H1 & H2 & H3 & H4 & H5).
+  destruct Hs as (H1 & H2 & H3 & H4 & H4' & H5).
   assert (Hs : StyleOK st) by (repeat split; assumption).
   destruct (walk_ok st sn O tw (st_parts st) 0%nat None Hs Htab Hn HO H5) as [wd E]. rewrite E.
   destruct (o_cur_nonempty O); [|reflexivity].
@@ -411,11 +436,14 @@ Theorem frame_ok ls tw th n bottom :
   exists n', frame_outcome ls tw th n bottom = Ok n' /\ n' <= th + (if bottom then n else 0).
 Proof.
   intros Htw Hth Hn. unfold frame_outcome.
-  destruct (paint_ok ls 0 (nlen ls) tw th 0 Htw Hth ltac:(lia)) as [r [E Hr]]. rewrite E.
+  destruct (paint_ok ls 0 (nlen ls) tw th 0 Htw Hth ltac:(lia)) as [r [E Hr]].
   set (shift := if bottom && (visual_line_count ls tw <? n) then n - visual_line_count ls tw else 0).
   assert (Hshift : shift <= (if bottom then n else 0)).
   { subst shift. destruct bottom; cbn [andb]; [|lia].
     destruct (visual_line_count ls tw <? n); lia. }
+  assert (Hfs : (match ls with [] => (0 <? shift) && (th <=? shift) | _ :: _ => false end && (shift =? 0)) = false).
+  { destruct ls; [|reflexivity]. destruct (N.eqb_spec shift 0) as [->|]; [reflexivity | apply andb_false_r]. }
+  rewrite Hfs, E.
   destruct (N.ltb_spec USIZE_MAX (r + shift)) as [Hov|_].
   { destruct bottom; unfold USIZE_MAX, U64MAX, U16 in *; lia. }
   exists (r + shift). split; [reflexivity | lia].
@@ -438,8 +466,9 @@ Proof.
   - destruct (nlen (map (fun c => [c]) s) <? 2); [discriminate|]. inversion H; reflexivity.
   - destruct (nlen l <? 2); [discriminate|]. inversion H; reflexivity.
   - destruct (nlen cl <? 2); [discriminate|]. destruct (width_of cl) as [w|]; [|discriminate].
-    destruct (w =? 0); [discriminate|]. inversion H; reflexivity.
-  - destruct (parse s); [|discriminate]. inversion H; reflexivity.
+    destruct (w =? 0); [discriminate|].
+    destruct (existsb (fun c => has_tab (cl_text c)) cl); [discriminate|]. inversion H; reflexivity.
+  - rewrite parse_full_total in H. destruct (parse s); [|discriminate]. inversion H; reflexivity.
   - inversion H; reflexivity.
 Qed.
 
@@ -457,7 +486,7 @@ Lemma construct_tab c st : construct c = BOk st -> st_tab st = DEFAULT_TAB_WIDTH
 Proof.
   assert (Hn : forall ps st0, new_style ps = BOk st0 -> st_tab st0 = DEFAULT_TAB_WIDTH).
   { intros ps st0 H. unfold new_style in H. rewrite default_width in H. inversion H; reflexivity. }
-  destruct c as [| |t]; cbn [construct].
+  destruct c as [| |t]; cbn [construct]; rewrite parse_full_total.
   - destruct (parse DEFAULT_BAR_TEMPLATE); [apply Hn | discriminate].
   - destruct (parse DEFAULT_SPINNER_TEMPLATE); [apply Hn | discriminate].
   - destruct (parse t); [apply Hn | discriminate].
@@ -552,6 +581,17 @@ Proof.
 Qed.
 
 (** * rejections happen in the builder call *)
+Lemma tab_free_iff cl :
+  existsb (fun c => has_tab (cl_text c)) cl = false <-> Forall (fun c => ~ In 9 (cl_text c)) cl.
+Proof.
+  induction cl as [|c r IH]; cbn [existsb].
+  - split; [constructor | reflexivity].
+  - rewrite orb_false_iff, IH. split.
+    + intros [H1 H2]. constructor; [|exact H2]. intros Hin. apply has_tab_In in Hin. congruence.
+    + intros H. inversion H as [|? ? H1 H2]; subst. split; [|exact H2].
+      destruct (has_tab (cl_text c)) eqn:E; [|reflexivity]. exfalso. apply H1, has_tab_In, E.
+Qed.
+
 Theorem rejects_early st :
   (forall s, nlen s < 2 -> bstep st (OTickChars s) = BPanic SITE_TICK_CHARS)
   /\ (forall l, nlen l < 2 -> bstep st (OTickStrings l) = BPanic SITE_TICK_STRINGS)
@@ -559,7 +599,10 @@ Theorem rejects_early st :
   /\ (forall cl, 2 <= nlen cl -> (exists a b, In a cl /\ In b cl /\ cl_w a <> cl_w b) ->
         bstep st (OProgressChars cl) = BPanic SITE_WIDTH_UNEQUAL)
   /\ (forall cl, 2 <= nlen cl -> Forall (fun c => cl_w c = 0) cl ->
-        bstep st (OProgressChars cl) = BPanic SITE_PCHARS_ZERO).
+        bstep st (OProgressChars cl) = BPanic SITE_PCHARS_ZERO)
+  /\ (forall cl w, 2 <= nlen cl -> 1 <= w -> Forall (fun c => cl_w c = w) cl ->
+        (exists c, In c cl /\ In 9 (cl_text c)) ->
+        bstep st (OProgressChars cl) = BPanic SITE_PCHARS_TAB).
 Proof.
   repeat split.
   - intros s H. cbn [bstep]. rewrite nlen_map. destruct (N.ltb_spec (nlen s) 2); [reflexivity | lia].
@@ -577,6 +620,13 @@ Proof.
     assert (E : width_of cl = Ok 0).
     { apply width_of_ok. split; [|exact Hz]. intros ->. unfold nlen in H. cbn in H. lia. }
     rewrite E. reflexivity.
+  - intros cl w H Hw Hf (c & Hc & Ht). cbn [bstep].
+    destruct (N.ltb_spec (nlen cl) 2); [lia|].
+    assert (E : width_of cl = Ok w).
+    { apply width_of_ok. split; [|exact Hf]. intros ->. unfold nlen in H. cbn in H. lia. }
+    rewrite E. destruct (N.eqb_spec w 0); [lia|].
+    destruct (existsb (fun c0 => has_tab (cl_text c0)) cl) eqn:Et; [reflexivity|].
+    exfalso. apply tab_free_iff in Et. rewrite Forall_forall in Et. exact (Et c Hc Ht).
 Qed.
 
 (** the builder accepts exactly what the documentation allows *)
@@ -591,24 +641,27 @@ Proof.
     + intros [? Hx]; discriminate.
     + intros [H _]. lia.
     + destruct (width_of cl) as [w|s] eqn:E; [|intros [? Hx]; discriminate].
-      destruct (N.eqb_spec w 0); [intros [? Hx]; discriminate|]. intros _.
-      split; [exact Hl|]. exists w. split; [lia|]. apply width_of_ok in E. exact (proj2 E).
-    + intros [_ (w & Hw & Hf)].
+      destruct (N.eqb_spec w 0); [intros [? Hx]; discriminate|].
+      destruct (existsb (fun c => has_tab (cl_text c)) cl) eqn:Et; [intros [? Hx]; discriminate|].
+      intros _. split; [exact Hl|]. split; [|apply tab_free_iff; exact Et].
+      exists w. split; [lia|]. apply width_of_ok in E. exact (proj2 E).
+    + intros [_ [(w & Hw & Hf) Hnt]].
       assert (E : width_of cl = Ok w).
       { apply width_of_ok. split; [|exact Hf]. intros ->. unfold nlen in Hl. cbn in Hl. lia. }
-      rewrite E. destruct (N.eqb_spec w 0); [lia|]. eexists; reflexivity.
-  - destruct (parse s) as [ps|t c]; split.
+      rewrite E. destruct (N.eqb_spec w 0); [lia|].
+      apply tab_free_iff in Hnt. rewrite Hnt. eexists; reflexivity.
+  - rewrite parse_full_total. destruct (parse s) as [ps|t c]; split.
     + intros _. exists ps; reflexivity. + intros _. eexists; reflexivity.
     + intros [? Hx]; discriminate. + intros [? Hx]; discriminate.
   - split; [intros _; exact I | intros _; eexists; reflexivity].
   - split; [intros _; exact I | intros _; eexists; reflexivity].
 Qed.
 
-(** what is not accepted is refused at once: a panic at one of the five builder sites, or
+(** what is not accepted is refused at once: a panic at one of the six builder sites, or
     Err(TemplateError) for a template *)
 Definition builder_site (s : N) : Prop :=
   s = SITE_WIDTH_UNEQUAL \/ s = SITE_TICK_CHARS \/ s = SITE_TICK_STRINGS
-  \/ s = SITE_PCHARS_LT2 \/ s = SITE_PCHARS_ZERO.
+  \/ s = SITE_PCHARS_LT2 \/ s = SITE_PCHARS_ZERO \/ s = SITE_PCHARS_TAB.
 
 Theorem bstep_rejects st o :
   ~ accepts o ->
@@ -630,10 +683,12 @@ Proof.
     + destruct (width_of cl) as [w|s] eqn:E.
       * destruct (N.eqb_spec w 0).
         -- eexists; split; [reflexivity | tauto].
-        -- exfalso. apply Hn. apply Ha. eexists; reflexivity.
+        -- destruct (existsb (fun c => has_tab (cl_text c)) cl).
+           ++ eexists; split; [reflexivity | tauto].
+           ++ exfalso. apply Hn. apply Ha. eexists; reflexivity.
       * exists s. split; [reflexivity|]. apply width_of_panic in E.
         destruct E as [[E _]|[E _]]; [|tauto]. subst cl. unfold nlen in Hl. cbn in Hl. lia.
-  - destruct (parse s) as [ps|t c].
+  - rewrite parse_full_total in *. destruct (parse s) as [ps|t c].
     + exfalso. apply Hn. exists ps; reflexivity.
     + exists t, c; reflexivity.
   - exfalso. apply Hn. exact I.
@@ -690,4 +745,14 @@ Theorem models_agree :
   /\ (forall ticks s, get_final_tick_str ticks = Ok s -> Keys.get_final_tick_str ticks = s).
 Proof.
   split; [exact padded_sites_agrees|]. split; [exact get_tick_str_agrees | exact get_final_tick_str_agrees].
+Qed.
+
+(** * the debug_assert of TabExpandedString::expanded (state.rs:386) *)
+Theorem notabs_assert_unreachable st :
+  (forall b, expanded_new st b <> Panic SITE_NOTABS_ASSERT)
+  /\ expanded_site st VNoTabs true = Panic SITE_NOTABS_ASSERT.
+Proof.
+  split; [|reflexivity]. intros b. rewrite expanded_new_spec. unfold tab_site.
+  destruct (b && (ISIZE_MAX <? st_tab st)); [|discriminate].
+  intros H. inversion H.
 Qed.
